@@ -161,13 +161,15 @@ def read_container(b, co):
                             "enc": bool((fl >> enc_bit) & 1), "hash_tag": (fl >> 8) & ((1 << hbits) - 1)})
         r = 16 + 128 * j
         c["regions"] += [(r, r + 4, "iae.offset"), (r + 4, r + 8, "iae.size"), (r + 8, r + 16, "iae.load"), (r + 16, r + 24, "iae.entry"),
-                         (r + 24, r + 28, "iae.flags"), (r + 28, r + 32, "iae.meta"), (r + 32, r + 96, "iae.hash"), (r + 96, r + 128, "iae.iv")]
+                         (r + 24, r + 28, "iae.flags"), (r + 28, r + 32, "iae.meta"), (r + 32, r + 96, "iae.hash"),
+                         (r + 96, r + 128, "iae.iv" if c["images"][-1]["enc"] else "iae.iv-of-plain-image")]
     s = co + c["sbo"]
     c["sb"] = {"version": b[s], "length": u(b, s + 1, 2), "tag": b[s + 3], "cert_off": u(b, s + 4, 2), "srk_off": u(b, s + 6, 2),
                "sig_off": u(b, s + 8, 2), "blob_off": u(b, s + 10, 2), "keyid": u(b, s + 12, 4)}
     q = c["sbo"]
     c["regions"] += [(q, q + 1, "sb.version"), (q + 1, q + 3, "sb.length"), (q + 3, q + 4, "sb.tag"), (q + 4, q + 6, "sb.cert_off"),
-                     (q + 6, q + 8, "sb.srk_off"), (q + 8, q + 10, "sb.sig_off"), (q + 10, q + 12, "sb.blob_off"), (q + 12, q + 16, "sb.keyid")]
+                     (q + 6, q + 8, "sb.srk_off"), (q + 8, q + 10, "sb.sig_off"), (q + 10, q + 12, "sb.blob_off"),
+                     (q + 12, q + 16, "sb.keyid" if c["sb"]["blob_off"] else "sb.keyid-without-blob")]
     sb = c["sb"]
     if sb["srk_off"] and c["version"] == 0:
         t = s + sb["srk_off"]
@@ -286,6 +288,7 @@ def oracle(case, res, keys, fam_info, consts):
     if len(case["containers"]) > fam_info["containers_max_cnt"]:
         bad.append(("too-many-containers", "more containers than the family allows were exported"))
     occupied = []
+    zext = [False]
     for k, c in enumerate(case["containers"]):
         co = k * csize
         if co + 16 > len(b):
@@ -332,10 +335,20 @@ def oracle(case, res, keys, fam_info, consts):
                     bad.append(("entry-decrypt", f"{tag}: encrypted image without DEK / not block aligned"))
                 else:
                     plain = aes_cbc_dec(dek, ri["iv"][16:], blob_)
+                    # class of the failure: the cipher text was zero-extended to a forced image_size_alignment after encryption
+                    cls = ""
+                    if im["size_align"] and hashlib.sha256(plain).digest() != ri["iv"]:
+                        n = len(blob_.rstrip(b"\0"))
+                        n = (n + 15) // 16 * 16
+                        while n <= len(blob_) and not cls:
+                            if not any(blob_[n:]) and hashlib.sha256(aes_cbc_dec(dek, ri["iv"][16:], blob_[:n])).digest() == ri["iv"]:
+                                cls = ":size-aligned-ciphertext"
+                                zext[0] = True
+                            n += 16
                     if hashlib.sha256(plain).digest() != ri["iv"]:
-                        bad.append(("entry-iv", f"{tag}: SHA-256 of the decrypted data is not the IV field"))
+                        bad.append(("entry-iv" + cls, f"{tag}: SHA-256 of the decrypted data is not the IV field"))
                     if plain != data + bytes(len(plain) - len(data)):
-                        bad.append(("entry-decrypt", f"{tag}: decrypting with the DEK does not give the image"))
+                        bad.append(("entry-decrypt" + cls, f"{tag}: decrypting with the DEK does not give the image"))
             if (ri["load"], ri["entry"]) != (im["load"], im["entry"]):
                 bad.append(("entry-fields", f"{tag}: load/entry address differ from the configuration"))
         # authenticity
@@ -393,6 +406,8 @@ def oracle(case, res, keys, fam_info, consts):
             bad.append(("parse-back-unequal", "parse(export(x)) != x"))
         if res.get("parsed_verify_errors"):
             names = ";".join(sorted({e.split("/")[-1] for e in res["parsed_verify_errors"]}))
+            if names == "Decrypted data" and zext[0]:
+                names += ":size-aligned-ciphertext"
             bad.append((f"parsed-verify-error:{names}", f"verify() of the parsed image reports {res['parsed_verify_errors'][:3]}"))
         elif res.get("reexport") is not True:
             bad.append((f"reexport:{res.get('reexport')}", "export(parse(export(x))) differs from export(x)"))
@@ -407,6 +422,8 @@ def oracle(case, res, keys, fam_info, consts):
         for a, e, rck in extents:
             if a <= idx < e:
                 label = region_of(rck, idx - a)
+                if label == "hdr.flags" and idx - a == 4 and bit < 2:
+                    label = f"hdr.flags(srk_set->{(rck['flags'] & 3) ^ (1 << bit)})"      # the authentication selector itself
         if outcome.startswith("crash"):
             bad.append((f"tamper-crash:{outcome}:{label}", f"flipping bit {bit} of byte {hex(idx)} ({label}) crashes parse()/verify(): {outcome}"))
         elif outcome == "silent":
@@ -420,7 +437,7 @@ def gen_cases(tier, rng, fams, extract, keys):
     consts = {"csize": {False: extract["container"]["v1"]["CONTAINER_SIZE"], True: extract["container"]["v2"]["CONTAINER_SIZE"]},
               "start": {v: {False: extract["container"][n]["START_IMAGE_ADDRESS"], True: extract["container"][n]["START_IMAGE_ADDRESS_NAND"]}
                         for v, n in ((False, "v1"), (True, "v2"))}}
-    lens = [1, 13, 511, 512, 513, 700, 1024, 1500, 2048, 4096]
+    lens = [1, 13, 511, 512, 513, 700, 1024, 1500] + ([2048, 4096] if thorough else [])
 
     def image(fi, **kw):
         core = rng.choice([c for c in fi["core_ids"] if c != "ele"])
@@ -434,7 +451,7 @@ def gen_cases(tier, rng, fams, extract, keys):
              "load": rng.choice([0, 0x1000, 0x2000_0000, (1 << 64) - 8]), "entry": rng.choice([0, 0x1000, (1 << 64) - 1]),
              "type": typ, "core": core, "hash": rng.choice(["sha256", "sha384", "sha512"]), "enc": False,
              "boot": rng.choice([0, 0, 1, 0x7FFF]), "cpu": rng.choice([0, 0, 1023]), "mu": rng.choice([0, 0, 1023]),
-             "part": rng.choice([0, 0, 255]), "gap": rng.choice([0, 0, 0, 0x100, 0x400]), "size_align": rng.choice([0, 0, 0, 0, 0x1000])}
+             "part": rng.choice([0, 0, 255]), "gap": rng.choice([0, 0, 0, 0x100, 0x400]), "size_align": rng.choice([0] * 7 + [0x1000])}
         d.update(kw)
         return d
 
@@ -587,7 +604,8 @@ def gen_cases(tier, rng, fams, extract, keys):
         fx = v2_fams[n % len(v2_fams)]
         fi = extract["families"][fx]
         c = container(fi, 1 + n % 2, signed=[None, "ecc384", "ecc256", "rsa2048"][n % 4] if n else "ecc256")
-        S["container version 2 (oracles only)"].append(mk(fx, tms[n % 4], [c], "v2-auto-offsets", "export", v2=True))
+        ks = c["keys"][0][0] if c["keys"] else "unsigned"
+        S["container version 2 (oracles only)"].append(mk(fx, tms[n % 4], [c], f"v2-{ks}", "export", v2=True))
     return S, consts
 
 
@@ -695,23 +713,25 @@ def run(tier):
             fi = extract["families"][c["fam"]]
             args = model_args(c, r, keys, fi)
             exprs.append(model_expr(1, args))
-            idx.append((i, 1))
-            if r.get("container_verify") is not None and len(c["containers"]) <= fi["containers_max_cnt"]:
-                exprs.append(model_expr(3, args))
-                idx.append((i, 3))
+            idx.append(i)
         try:
             vals = vlib.run_model_cases("c06", "Value AhabModel", exprs, shard=max(1, (len(exprs) + 15) // 16), timeout=2400)
-            for (i, fn), mv in zip(idx, vals):
+            for i, mv in zip(idx, vals):
                 c, r = flat[i], results[i]
                 nmodel += 1
-                if fn == 1:
-                    ok = same_export(r, mv)
-                    what = f"export: impl {r['status']}/{r.get('stage')} model {'bytes' if mv[0] == 'l' else mv}"
-                else:
+                me, mr = mv[1][0], mv[1][1]
+                ok = same_export(r, me)
+                if not ok and c["why"] == "selected-srk-revoked" and r["status"] == "e1" and r.get("stage") == "export" and me[0] == "l":
+                    ok = True      # known finding C06-F2: the model is faithful to the defect; a repaired tree refuses this configuration
+                what = f"export: impl {r['status']}/{r.get('stage')} model {'bytes' if me[0] == 'l' else me}"
+                fn = 1
+                if ok and r.get("container_verify") is not None:
                     want = range_errors_of(r)
-                    got = [sorted(x[1] for x in cv[1]) for cv in mv[1]] if mv[0] == "l" else mv
-                    ok = mv[0] == "l" and len(want) == len(got) and all(w is None or w == g for w, g in zip(want, got))
-                    what = f"failing range checks: impl {want} model {got}"
+                    got = [sorted(x[1] for x in cv[1]) for cv in mr[1]]
+                    if not (len(want) == len(got) and all(w is None or w == g for w, g in zip(want, got))):
+                        ok, fn = False, 3
+                        what = f"failing range checks of AHABContainer.verify(): impl {want} model {got}"
+                mv = me
                 if not ok:
                     ndis += 1
                     if ndis <= 5:
